@@ -149,7 +149,7 @@ func checkC02(w *World, r *Report) {
 					}
 					popped(arg, 0)
 					r.Check(good, "R02.8", fmt.Sprintf("%s: %s #%d", funcKey(f), nm(c.Call.Method), n), c.Pos(), "the path asked about was popped", "the tree is asked about `"+from+"`, a path that is not taken off the stack: it stays underneath the result and the next relative path or predicate key of the expression is attached to it")
-				r.StandsFor("R02.8", staticCallSites(allFuncs(w.SSAPkg("xpath")), f))
+					r.StandsFor("R02.8", staticCallSites(allFuncs(w.SSAPkg("xpath")), f))
 				}
 			}
 		}
